@@ -82,7 +82,8 @@ def run(c):
         "go2coq xnamed: translates sameTypeName, sameID and the `case *types.Named:` clause of typeIdentical (straight-line bool/string "
         "code plus the canonical loop over the type arguments) into Gallina over the facts they read",
         "go2coq xtypes: reads ifacePair.identical (==, &&, || over the four addresses) and the call sites of identity/implements "
-        "relations in ruleguard, typematch and xtypes",
+        "relations in ruleguard, typematch and xtypes; prints the arguments of the relation calls inside the filter constructors, the "
+        "dsl natives, FindType and findDependency with single-assignment locals substituted (gen_relation_args / gen_operand_sources)",
         "harness/internal/gtypes: canonical serialisation of go/types types into gtype terms (go/types accessors trusted)",
         "go/types: types.Identical / types.Implements as oracle inside one universe; LookupFieldOrMethod as the method-set "
         "oracle assumed by implements_x_is_spec (Section hypotheses lookup_mset, iface_has_no_fields)",
@@ -95,7 +96,7 @@ def run(c):
         "constraint interfaces with type sets, generic (uninstantiated) signatures, function-local named types",
         "pointer equality `x == y` is modelled as term equality within a universe (identical_x_refl_same)",
     ]
-    c.go2coq_sources = ["types.go", "c20.go", "c10.go", "c14named.go"]
+    c.go2coq_sources = ["types.go", "c20.go", "c10.go", "c10skel.go", "c14named.go"]
     c.build_theories()
     c.require_theories("Types/GType.v", "Types/XIdentical.v", "Types/C14Run.v", "Types/GoStrings.v")
     # ---- P over regenerated code: ifacePair.identical and the call sites of the relations
